@@ -326,6 +326,16 @@ impl C19 {
         cases.push((format!("{}..", lit), Exp::Compile));
         cases.push((format!("print({}.x);", lit), Exp::Runtime("AttributeError")));
         cases.push((format!("print(-{});", lit), Exp::Prints(crate::rv::num_display(-value))));
+        // member names that would continue a numeric literal in other notations (exponents, radix and
+        // type suffixes): after a digit string the `.` starts a member access all the same
+        for m in ["e5", "E2", "e", "E", "e5x", "exp", "e0", "f", "d", "L", "x10", "b1", "o7", "_1", "inf", "nan", "e308", "E999"] {
+            cases.push((format!("print({}.{});", lit, m), Exp::Runtime("AttributeError")));
+            cases.push((format!("print({}.{}());", lit, m), Exp::Runtime("AttributeError")));
+        }
+        for m in ["e-2", "e+1", "E-0", "e - 1"] {
+            // `D.e-2` is `(D.e) - 2`: the member access fails before the subtraction
+            cases.push((format!("print({}.{});", lit, m), Exp::Runtime("AttributeError")));
+        }
         let mut fail = None;
         for (src, exp) in &cases {
             let o = crate::yrun::run_source(src, &RunCfg::default());
@@ -372,7 +382,7 @@ impl Property for C19 {
     }
 
     fn rule(&self) -> String {
-        "cases: (doubles) batches of up to 32 doubles from random bit patterns, subnormals, integers and millesimal fractions, handed to the program bit-exactly as globals through Vm::set_global; (boundaries, exhaustive) +-0, subnormal/normal limits, every power of two 2^-1074..2^1023 and of ten 1e-330..1e329 with both neighbours, 2^53 and 2^63 neighbours, infinities, NaNs; (literals_enum) every digit string d+ of <=6 digits and d+.d+ of <=5 digits (thorough: all 1 543 210; quick: 120 000 of them), (literals_random) digit strings up to 40 characters; (suffix) a literal followed by nothing, ';', '.len', '.len()', '.5', '..3', '.' identifier, '.' and '..' at end of input. Oracle: in-program round trip through String.from/interpolation and to_num (NaN via x != x, sign of zero via 1/x), the converted value read back bit-exactly with Vm::global, and independently an exact big-integer decimal oracle (harness/src/decimal.rs): the printed text must denote x and a literal's value must be a nearest double of its text; integral values print without a fraction. Non-trivial: not an integer below 2^53 / a literal with a fraction or more than 15 digits; distinct by the batch's bit patterns or texts.".into()
+        "cases: (doubles) batches of up to 32 doubles from random bit patterns, subnormals, integers and millesimal fractions, handed to the program bit-exactly as globals through Vm::set_global; (boundaries, exhaustive) +-0, subnormal/normal limits, every power of two 2^-1074..2^1023 and of ten 1e-330..1e329 with both neighbours, 2^53 and 2^63 neighbours, infinities, NaNs; (literals_enum) every digit string d+ of <=6 digits and d+.d+ of <=5 digits (thorough: all 1 543 210; quick: 120 000 of them), (literals_random) digit strings up to 40 characters; (suffix) a literal followed by nothing, ';', '.len', '.len()', '.5', '..3', '.' identifier (including member names that look like exponents, radix prefixes and type suffixes: e5, E2, e-2, x10, f, L, inf, ...), '.' and '..' at end of input. Oracle: in-program round trip through String.from/interpolation and to_num (NaN via x != x, sign of zero via 1/x), the converted value read back bit-exactly with Vm::global, and independently an exact big-integer decimal oracle (harness/src/decimal.rs): the printed text must denote x and a literal's value must be a nearest double of its text; integral values print without a fraction. Non-trivial: not an integer below 2^53 / a literal with a fraction or more than 15 digits; distinct by the batch's bit patterns or texts.".into()
     }
 
     fn assumptions(&self) -> Vec<String> {
